@@ -23,10 +23,9 @@ theorem lookup_none_not_mem {α β : Type} [DecidableEq α] {l : List (α × β)
       · subst h1; exact hq e
       · exact ih h h1
 
-theorem onIqResult_TV (hw : WFConfig accts groups) {s : Sys} {a : Acct} {hd : Stanza} {rest : List Stanza} {iq : Nat}
+theorem onIqResult_TV' (hw : WFConfig accts groups) {s : Sys} {a : Acct} {hd : Stanza} {rest : List Stanza} {iq : Nat}
     {got ms : List Acct}
     (hA : AInv accts groups (abs s)) (hT : TV ex accts groups s.submitted (view s)) (ha : a ∈ accts)
-    (hlen : s.submitted.length ≤ 100)
     (hq : queueOf s.outbound a = hd :: rest) (hiq : stanzaIq hd = some iq)
     (hplain : ∀ id r, downTok id hd = 0 ∧ nOf id hd = 0 ∧ rcptOut id r hd = 0 ∧ retryDownTok id r hd = 0)
     (hgot : ∀ k0, lookup (getClient s a).iqReg iq = some k0 → ∀ j, j ∈ asked k0 → j ∈ got) :
@@ -47,14 +46,27 @@ theorem onIqResult_TV (hw : WFConfig accts groups) {s : Sys} {a : Acct} {hd : St
     cases hcn : contNode k0 with
     | some nw =>
       obtain ⟨n, who⟩ := nw
-      exact onIqResult_sender hw hA hT ha hlen hq hiq hplain hk0 hcn (hgot k0 hk0)
+      exact onIqResult_sender' hw hA hT ha hq hiq hplain hk0 hcn (hgot k0 hk0)
     | none =>
       cases k0 with
       | keysForPending peer part => exact onIqResult_pending hw hA hT ha hq hiq hplain hk0 (hgot _ hk0)
       | _ => cases hcn
 
-theorem deliver_TInv (hw : WFConfig accts groups) {s : Sys} {a : Acct}
-    (h : TInv ex accts groups s) (hall : Allowed s (.deliver a .none) = true) (hlen : s.submitted.length ≤ 100) :
+theorem onIqResult_TV (hw : WFConfig accts groups) {s : Sys} {a : Acct} {hd : Stanza} {rest : List Stanza} {iq : Nat}
+    {got ms : List Acct}
+    (hA : AInv accts groups (abs s)) (hT : TV ex accts groups s.submitted (view s)) (ha : a ∈ accts)
+    (_hlen : s.submitted.length ≤ 100)
+    (hq : queueOf s.outbound a = hd :: rest) (hiq : stanzaIq hd = some iq)
+    (hplain : ∀ id r, downTok id hd = 0 ∧ nOf id hd = 0 ∧ rcptOut id r hd = 0 ∧ retryDownTok id r hd = 0)
+    (hgot : ∀ k0, lookup (getClient s a).iqReg iq = some k0 → ∀ j, j ∈ asked k0 → j ∈ got) :
+    TV ex accts groups s.submitted (view (onIqResult { s with outbound := insert s.outbound a rest } a iq got ms)) :=
+  onIqResult_TV' hw hA hT ha hq hiq hplain hgot
+
+/-- a delivery; the bound on the number of submissions is needed only when a retry request is delivered -/
+theorem deliver_TInv' (hw : WFConfig accts groups) {s : Sys} {a : Acct}
+    (h : TInv ex accts groups s) (hall : Allowed s (.deliver a .none) = true)
+    (hlen : s.submitted.length ≤ 100 ∨
+      ∀ st ∈ queueOf s.outbound a, ∀ id peer part cnt, st ≠ .receipt id peer part (.retry cnt)) :
     TInv ex accts groups (step s (.deliver a .none)) := by
   obtain ⟨hA, hT⟩ := h
   refine ⟨step_inv hA hall, ?_⟩
@@ -84,7 +96,10 @@ theorem deliver_TInv (hw : WFConfig accts groups) {s : Sys} {a : Acct}
     | receipt id peer part t =>
       cases t with
       | delivery => exact onReceipt_delivery_TV hw hA hT hq
-      | retry cnt => exact onReceipt_retry_TV hw hA hT hq
+      | retry cnt =>
+        rcases hlen with hlen | hnr
+        · exact onReceipt_retry_TV hw hA hT hlen hq
+        · exact absurd rfl (hnr _ (by rw [hq]; simp) id peer part cnt)
     | ack id cls =>
       show TV ex accts groups s.submitted (view { s with outbound := insert s.outbound a rest })
       rw [view_setOutbound]
@@ -92,13 +107,17 @@ theorem deliver_TInv (hw : WFConfig accts groups) {s : Sys} {a : Acct}
     | getKeys iq jids => exact absurd hdg.dir (by simp [downDir])
     | getGroup iq g => exact absurd hdg.dir (by simp [downDir])
     | keys iq got =>
-      refine onIqResult_TV hw hA hT ha hlen hq rfl (fun _ _ => ⟨rfl, rfl, rfl, rfl⟩) ?_
+      refine onIqResult_TV' hw hA hT ha hq rfl (fun _ _ => ⟨rfl, rfl, rfl, rfl⟩) ?_
       intro k0 hk0 j hj
       exact (hl iq rfl).2 k0 hk0 j hj
     | groupInfo iq g ms =>
-      refine onIqResult_TV hw hA hT ha hlen hq rfl (fun _ _ => ⟨rfl, rfl, rfl, rfl⟩) ?_
+      refine onIqResult_TV' hw hA hT ha hq rfl (fun _ _ => ⟨rfl, rfl, rfl, rfl⟩) ?_
       intro k0 hk0 j hj
       exact (hl iq rfl).2 k0 hk0 j hj
+
+theorem deliver_TInv (hw : WFConfig accts groups) {s : Sys} {a : Acct}
+    (h : TInv ex accts groups s) (hall : Allowed s (.deliver a .none) = true) (hlen : s.submitted.length ≤ 100) :
+    TInv ex accts groups (step s (.deliver a .none)) := deliver_TInv' hw h hall (Or.inl hlen)
 
 end
 
